@@ -377,6 +377,24 @@ def setDesc (h : Heap) (m : Ref) (s : String) : R Heap :=
   | .ok (i, _, d) => .ok (h.set i (.inv { d with desc := s }))
   | .error e => .error e
 
+/-- ANY mutator of the invariant object reached through a model: `set_description`, `override_tolerance`, `reset_tolerance`,
+`change_logly` (which rebinds `quantities`) ... -- the invariant data is replaced by `f` of itself, in place -/
+def mutInv (h : Heap) (m : Ref) (f : InvData → InvData) : R Heap :=
+  match getModel h m with
+  | .ok (i, _, d) => .ok (h.set i (.inv (f d)))
+  | .error e => .error e
+
+/-- `change_logly(new, names)`: the log status of the named loggable variables (all of them when `names` is empty);
+the new `Quantity` objects keep id, name and kind only -/
+def changeLogly (new : Bool) (names : List String) (d : InvData) : InvData :=
+  { d with quantities := d.quantities.map (fun q =>
+      if q.logly.isSome && (names.isEmpty || names.contains q.name) then
+        { name := q.name, kind := q.kind, logly := some new, desc := "", attrs := none }
+      else q) }
+
+/-- `reset_tolerance()` -/
+def resetTol (tol : Rat) (d : InvData) : InvData := { d with tolEig := tol, tolEq := tol }
+
 /-- `m.override_tolerance(eigenvalue=…)` / `(equality=…)` -/
 def setTol (h : Heap) (m : Ref) (eig : Bool) (x : Rat) : R Heap :=
   match getModel h m with
@@ -451,7 +469,10 @@ def levelsOf (h : Heap) (q : Nat) : List Ref → Option (List Val)
   | [] => some []
   | v :: vs =>
     match observeVar h v, levelsOf h q vs with
-    | some o, some rest => some ((o.levels[q]?).getD none :: rest)
+    | some o, some rest =>
+      (match o.levels[q]? with          -- `levels[qid]`: a missing key is an error, not a default
+       | some x => some (x :: rest)
+       | none => none)
     | _, _ => none
 
 /-- `m["name"]` / `m.get_value("name")` (and, with `unpack`, the getters `get_parameters`, `get_steady_levels` for one name):
@@ -479,11 +500,12 @@ inductive Op
   | copy (m : Ref)
   | pickle (m : Ref)
   | view (m : Ref) (idxs : List Int)
-  deriving Repr, Inhabited
+  | mutInv (m : Ref) (f : InvData → InvData)
+  deriving Inhabited
 
 def Op.target : Op → Ref
   | .assign m _ _ | .solve m | .steady m | .alter m _ | .setDesc m _ | .setTol m _ _ | .copy m | .pickle m
-  | .view m _ => m
+  | .view m _ | .mutInv m _ => m
 
 /-- the abstract numerical routines -/
 structure Funs where
@@ -502,5 +524,6 @@ def step (fs : Funs) (h : Heap) : Op → R (Option Ref × Heap)
   | .copy m => (copy h m).map (fun p => (some p.1, p.2))
   | .pickle m => (pickle h m).map (fun p => (some p.1, p.2))
   | .view m ix => (view h m ix).map (fun p => (some p.1, p.2))
+  | .mutInv m f => (mutInv h m f).map (fun h' => (none, h'))
 
 end IrisVerif.Heap
